@@ -86,6 +86,19 @@ def specTrace : List Item → Option Nat → Bool → List Nat → List Nat → 
     else specTrace r inIssue fresh (active.erase p) exempt
   | _ :: r, inIssue, fresh, active, exempt => specTrace r inIssue fresh active exempt
 
+/-- executable specification on the final observables: a request that reported success has a
+stored certificate to show for it — at the end of the history the subject's bundle can be
+loaded (`s-` = it cannot). Within a history nothing removes a complete bundle (a roll-back
+removes only what its own half-finished save added), so "complete when the request returned"
+implies "complete at the end". A leader whose save was left half-finished (storage outage:
+its roll-back fails too) leaves no loadable certificate: the next holder of the turn has to
+obtain one, not report success on the strength of the fragments. -/
+def specStored : List String → String
+  | [st, obs] =>
+    if st = "s-" && (obs.splitOn ",").any (fun o => o.startsWith "d1") then "bad:success-but-no-loadable-certificate"
+    else "ok"
+  | _ => "ok"
+
 /-! ### OS-process rig (`proc`): issuer intervals, kills and results of K real processes -/
 
 inductive PItem
@@ -181,7 +194,10 @@ def handle (args impl : List String) : String :=
           let d := match s.pc p with | .done true => "d1" | .done false => "d0" | .dead => "d0" | _ => "d?"
           d ++ (if s.contacted p then "c1" else "c0"))
         st ++ " " ++ String.intercalate "," obs
-    let spec := if impl.isEmpty then "-" else specTrace items none (initial = "fresh") [] []
+    let spec := if impl.isEmpty then "-" else
+      match specTrace items none (initial = "fresh") [] [] with
+      | "ok" => specStored impl
+      | v => v
     let nIssue := (items.filter (fun | .ev (.issueBegin _) => true | _ => false)).length
     let nFail := (items.filter (fun | .ev (.issueEnd _ false) => true | .ev (.saveFail _ _) => true | _ => false)).length
     let nRetry := (items.filter (fun | .ev (.retry _) => true | _ => false)).length
